@@ -24,7 +24,10 @@ func Make[T any](n int) *Chan[T] {
 	if !core.Controlled {
 		return &Chan[T]{real: make(chan T, n), cap: n}
 	}
-	if n <= 0 {
+	if n < 0 {
+		panic("makechan: size out of range") // like the original
+	}
+	if n == 0 {
 		panic("vchan: unbuffered channels are not modelled")
 	}
 	return &Chan[T]{cap: n, slot: make([]core.VC, n)}
